@@ -439,6 +439,13 @@ pub fn block_twin(seed: u64, idx: u64) -> Out {
 /// optimizer, must therefore arrive at the same weights - whatever the block does with
 /// optimizer slots, step numbers or accumulators.
 fn block_inline(seed: u64, idx: u64) -> Out {
+    block_inline_with(seed, idx, false)
+}
+
+/// `sentinel`: some hyper-parameters are given as 0, the value `Optimizer::validate` replaces
+/// by a default - whatever the default is, it must be the same for the layers of a block as for
+/// top-level layers (run under C03).
+pub fn block_inline_with(seed: u64, idx: u64, sentinel: bool) -> Out {
     let mut rng = Rng::stream(seed, "block_inline", idx);
     let acts = [Act::Tanh, Act::Sigmoid, Act::Linear, Act::Leaky];
     let kind = (idx % 2) as usize;
@@ -461,7 +468,47 @@ fn block_inline(seed: u64, idx: u64) -> Out {
     let at = *rng.pick(&cands);
     let mut blocked = inline.clone();
     blocked.layers[at] = LCfg::Feedback { body: vec![inline.layers[at].clone()], loops: 1, inskips: false, outskips: false, acc: Acc::Mean };
-    let opt = gen_optimizer(&mut rng, ((idx / 2) % 5) as usize);
+    let mut opt = gen_optimizer(&mut rng, ((idx / 2) % 5) as usize);
+    if sentinel {
+        // a random non-empty subset of the hyper-parameters that have a default
+        let mask = rng.range(1, 15);
+        match &mut opt {
+            OptCfg::Sgd { lr, .. } => *lr = 0.0,
+            OptCfg::Sgdm { lr, momentum, .. } => {
+                if mask & 1 == 1 || mask & 2 == 0 {
+                    *lr = 0.0;
+                }
+                if mask & 2 == 2 {
+                    *momentum = 0.0;
+                }
+            }
+            OptCfg::Adam { lr, b1, b2, eps, .. } | OptCfg::AdamW { lr, b1, b2, eps, .. } => {
+                if mask & 1 == 1 {
+                    *lr = 0.0;
+                }
+                if mask & 2 == 2 {
+                    *b1 = 0.0;
+                }
+                if mask & 4 == 4 {
+                    *b2 = 0.0;
+                }
+                if mask & 8 == 8 {
+                    *eps = 0.0;
+                }
+            }
+            OptCfg::Rmsprop { lr, alpha, eps, .. } => {
+                if mask & 1 == 1 || mask & 6 == 0 {
+                    *lr = 0.0;
+                }
+                if mask & 2 == 2 {
+                    *alpha = 0.0;
+                }
+                if mask & 4 == 4 {
+                    *eps = 0.0;
+                }
+            }
+        }
+    }
     let outputs = match inline.layers.last().unwrap() {
         LCfg::Dense { n, .. } => *n,
         _ => 1,
